@@ -8,6 +8,7 @@ EXPLANATION = ("R-ORDER run_coroutine's finished-arm (payload fetched and handed
                "a poisoned lock still hands out its guard inside Err (map_result calls the constructor on both arms); scoped/select "
                "owners re-raise only when not already unwinding, Cqueue::check_panic marks is_panicking before re-raising and ignores "
                "Cancel; a recycled stack gets a fresh CoroutineLocal; only default-sized finished stacks are recycled")
+EXPLANATION_2 = ('Condvar re-lock guard not dropped (a poisoned re-lock still holds the lock)')
 NOT_DECIDED = "state of the pool/queues after a panic under load; generator's catch_unwind at the coroutine boundary (trusted)"
 CONFIGS_QUICK = ["default"]
 
